@@ -495,3 +495,388 @@ Proof.
     apply step_sinks_In. exact Hl.
   - intros s3 Hp. eapply mark_post_trans; [|exact Hp]. split; [exact HI2|]. split; assumption.
 Qed.
+
+(* ------------------------------------------------------------------------------------------ *)
+(* node-table primitives                                                                       *)
+(* ------------------------------------------------------------------------------------------ *)
+(* NF K: nodes only appear, and only the keys in K may become attached *)
+Definition NF (K : list key) (s s' : st) : Prop :=
+  incl (KL (nodes s)) (KL (nodes s')) /\
+  (forall x, ~ In x K -> is_detached x s = true -> is_detached x s' = true).
+
+Lemma NF_refl K s : NF K s s.
+Proof. split; [apply incl_refl | auto]. Qed.
+Lemma NF_trans K s1 s2 s3 : NF K s1 s2 -> NF K s2 s3 -> NF K s1 s3.
+Proof. intros [A1 A2] [B1 B2]. split; [eapply incl_tran; eassumption | auto]. Qed.
+Lemma NF_weaken K K' s s' : incl K K' -> NF K s s' -> NF K' s s'.
+Proof. intros Hi [A1 A2]. split; [exact A1|]. intros x Hx. apply A2. intros H. apply Hx. apply Hi. exact H. Qed.
+
+Lemma NF_SO K s s' : SO s s' -> NF K s s'.
+Proof.
+  intros HSO. split; [rewrite (so_nodes _ _ HSO); apply incl_refl|].
+  intros x _ H. unfold is_detached, find_node in *. rewrite (so_nodes _ _ HSO). exact H.
+Qed.
+
+Lemma UDl_mono ns ns' fs :
+  (forall l n', findn (KFile, l) ns' = Some n' ->
+     exists n, findn (KFile, l) ns = Some n /\ (ncre n' = None \/ ncre n' = ncre n)) ->
+  UDl ns fs -> UDl ns' fs.
+Proof.
+  intros H HU r Hr Hst n' Hn'. destruct (H _ _ Hn') as [n [Hn [Hc|Hc]]]; [exact Hc|].
+  rewrite Hc. eapply HU; eassumption.
+Qed.
+
+(* rebuild Inv when only the node table (and possibly stored hashes) changed, keys kept *)
+Lemma Inv_nodes_change s s' :
+  Inv s -> NWl (nodes s') -> KL (nodes s') = KL (nodes s) ->
+  files s' = files s -> steps s' = steps s -> deps s' = deps s -> envs s' = envs s ->
+  NoDup (shash s') -> incl (shash s') (shash s) ->
+  UDl (nodes s') (files s) -> Inv s'.
+Proof.
+  intros [I1 I2 I3 I4 I5 I6 I7] HN HK Hf Hs Hd He Hh1 Hh2 HU.
+  constructor; rewrite ?Hf, ?Hs, ?Hd, ?He; try assumption.
+  - destruct I2 as [H1 H2 H3 H4 H5 H6 H7]. constructor; rewrite ?HK; try assumption.
+    eapply incl_tran; eassumption.
+  - eapply DWl_ext; eassumption.
+Qed.
+
+Lemma detach_nodes_findn ns k n x n' :
+  findn k ns = Some n -> findn x (detach_nodes k n ns) = Some n' ->
+  exists m, findn x ns = Some m /\ (ncre n' = None \/ ncre n' = ncre m) /\ (ndet m = true -> ndet n' = true).
+Proof.
+  intros Hk. unfold detach_nodes.
+  set (ns1 := updn k (fun n => mkNode (nk n) None true) ns).
+  assert (H1 : forall y m1, findn y ns1 = Some m1 ->
+            exists m, findn y ns = Some m /\ (ncre m1 = None \/ ncre m1 = ncre m) /\ (ndet m = true -> ndet m1 = true)).
+  { intros y m1. unfold ns1. rewrite findn_updn; [|reflexivity]. destruct (key_eqb y k).
+    - destruct (findn y ns) as [m|]; [|discriminate]. cbn. intros H. inversion H; subst m1.
+      exists m. cbn. auto.
+    - intros H. exists m1. auto. }
+  destruct (ndet n).
+  - apply H1.
+  - rewrite findn_setdet. destruct (findn x ns1) as [m1|] eqn:Hm1; [|discriminate]. cbn.
+    intros H. inversion H; subst n'. destruct (H1 _ _ Hm1) as [m [Hm [Hc Hd]]]. exists m.
+    split; [exact Hm|]. destruct (mem_key x (recl k ns1)); cbn; auto.
+Qed.
+
+Lemma KL_detach_nodes ns k n : KL (detach_nodes k n ns) = KL ns.
+Proof.
+  unfold detach_nodes, KL. destruct (ndet n); rewrite ?map_nk_setdet; apply map_nk_updn; reflexivity.
+Qed.
+
+Lemma findn_none_KL ns ns' x : KL ns' = KL ns -> findn x ns = None -> findn x ns' = None.
+Proof. intros HK H. apply findn_none. unfold KL in HK. rewrite HK. apply findn_none. exact H. Qed.
+
+Lemma is_detached_findn x s : is_detached x s = match findn x (nodes s) with Some n => ndet n | None => true end.
+Proof. reflexivity. Qed.
+
+Definition NodeOnly (s s' : st) : Prop :=
+  KL (nodes s') = KL (nodes s) /\ files s' = files s /\ steps s' = steps s /\ deps s' = deps s /\
+  envs s' = envs s /\ incl (shash s') (shash s) /\ defer_cap s' = defer_cap s.
+
+Lemma NodeOnly_refl s : NodeOnly s s.
+Proof. repeat split; try reflexivity. apply incl_refl. Qed.
+Lemma NodeOnly_trans s1 s2 s3 : NodeOnly s1 s2 -> NodeOnly s2 s3 -> NodeOnly s1 s3.
+Proof.
+  intros [A1 [A2 [A3 [A4 [A5 [A6 A7]]]]]] [B1 [B2 [B3 [B4 [B5 [B6 B7]]]]]].
+  repeat split; try congruence. eapply incl_tran; eassumption.
+Qed.
+
+Lemma node_detach_spec strict k s :
+  Inv s -> k <> root_key -> (strict = true -> find_node k s <> None) ->
+  wpg strict (node_detach k s) (fun s' => Inv s' /\ NodeOnly s s' /\ NF [] s s').
+Proof.
+  intros HI Hk Hst. unfold node_detach.
+  destruct (find_node k s) as [n|] eqn:Hf.
+  2:{ destruct strict; [|exact I]. cbn. apply (Hst eq_refl). reflexivity. }
+  destruct (ncre n) as [c|] eqn:Hc.
+  2:{ cbn. split; [exact HI|]. split; [apply NodeOnly_refl | apply NF_refl]. }
+  cbn [wpg].
+  set (s1 := upd_node k (fun n => mkNode (nk n) None true) s).
+  set (s' := if ndet n then s1 else set_detached_rec k true s1).
+  assert (Hnodes : nodes s' = detach_nodes k n (nodes s)).
+  { unfold s', detach_nodes. destruct (ndet n); reflexivity. }
+  assert (Hrest : files s' = files s /\ steps s' = steps s /\ deps s' = deps s /\ envs s' = envs s /\
+                  shash s' = shash s /\ defer_cap s' = defer_cap s).
+  { unfold s'. destruct (ndet n); repeat split; reflexivity. }
+  destruct Hrest as [R1 [R2 [R3 [R4 [R5 R6]]]]].
+  unfold find_node in Hf. fold (findn k (nodes s)) in Hf.
+  assert (HK : KL (nodes s') = KL (nodes s)). { rewrite Hnodes. apply KL_detach_nodes. }
+  split; [|split].
+  - apply (Inv_nodes_change s); try assumption.
+    + rewrite Hnodes. apply NW_detach; [apply (inv_nw _ HI) | exact Hk | exact Hf].
+    + rewrite R5. apply (rw_hnodup _ _ _ _ _ (inv_rw _ HI)).
+    + rewrite R5. apply incl_refl.
+    + apply (UDl_mono (nodes s)); [|apply (inv_ud _ HI)].
+      intros l n' Hn'. rewrite Hnodes in Hn'. destruct (detach_nodes_findn _ _ _ _ _ Hf Hn') as [m [Hm [Hcm _]]].
+      exists m. auto.
+  - repeat split; try assumption. rewrite R5. apply incl_refl.
+  - split; [rewrite HK; apply incl_refl|]. intros x _. rewrite !is_detached_findn, Hnodes.
+    destruct (findn x (detach_nodes k n (nodes s))) as [n'|] eqn:Hn'; [|reflexivity].
+    destruct (detach_nodes_findn _ _ _ _ _ Hf Hn') as [m [Hm [_ Hd]]]. rewrite Hm. exact Hd.
+Qed.
+
+Lemma reattach_nodes_findn ns k c det x n' :
+  findn x (reattach_nodes k c det ns) = Some n' ->
+  exists m, findn x ns = Some m /\ (x <> k -> ncre n' = ncre m).
+Proof.
+  unfold reattach_nodes. rewrite findn_setdet, findn_updn; [|reflexivity].
+  destruct (key_eqb x k) eqn:E.
+  - destruct (findn x ns) as [m|]; [|discriminate]. intros _. exists m. split; [reflexivity|].
+    apply key_eqb_eq in E. congruence.
+  - destruct (findn x ns) as [m|]; [|discriminate]. cbn. intros H. inversion H; subst n'.
+    exists m. split; [reflexivity|]. intros _. destruct (mem_key x _); reflexivity.
+Qed.
+
+Lemma KL_reattach_nodes ns k c det : KL (reattach_nodes k c det ns) = KL ns.
+Proof. unfold reattach_nodes, KL. rewrite map_nk_setdet. apply map_nk_updn. reflexivity. Qed.
+
+Lemma after_lost_product_spec strict oc s :
+  Inv s -> (strict = true -> fst oc = KStep \/ fst oc = KTree) ->
+  wpg strict (after_lost_product oc s)
+      (fun s' => Inv s' /\ SO s s' /\ files s' = files s /\ steps s' = steps s /\ incl (shash s') (shash s)).
+Proof.
+  intros HI Hst. unfold after_lost_product. destruct (fst oc) eqn:Ek.
+  - destruct strict; [|exact I]. cbn. destruct (Hst eq_refl); discriminate.
+  - destruct strict; [|exact I]. cbn. destruct (Hst eq_refl); discriminate.
+  - cbn. destruct (delete_hash_inv (snd oc) s HI) as [H1 H2]. split; [exact H1|]. split; [exact H2|].
+    split; [reflexivity|]. split; [reflexivity|]. cbn. intros x Hx. apply filter_In in Hx. tauto.
+  - cbn. split; [exact HI|]. split; [apply SO_refl|]. split; [reflexivity|]. split; [reflexivity|]. apply incl_refl.
+Qed.
+
+(* the old creator of a detached non-root node is a detached step or static tree *)
+Lemma old_creator_facts s k n oc :
+  Inv s -> find_node k s = Some n -> ndet n = true -> ncre n = Some oc ->
+  is_detached oc s = true /\ (fst oc = KStep \/ fst oc = KTree).
+Proof.
+  intros HI Hf Hd Hc. pose proof (inv_nw _ HI) as HW.
+  unfold find_node in Hf. fold (findn k (nodes s)) in Hf.
+  assert (Hkr : k <> root_key).
+  { intros ->. rewrite (nw_root _ HW) in Hf. inversion Hf; subst n. discriminate. }
+  pose proof (findn_In _ _ _ Hf) as [Hin Hkey].
+  assert (Hl : local_ok (nodes s) n). { apply (nw_local _ HW); [exact Hin | rewrite Hkey; exact Hkr]. }
+  unfold local_ok in Hl. rewrite Hc in Hl. destruct Hl as [H1 [H2 [cn [H3 H4]]]].
+  split.
+  - rewrite is_detached_findn, H3. congruence.
+  - pose proof (findn_In _ _ _ H3) as [Hcin Hckey].
+    destruct (fst oc) eqn:Ek; auto.
+    + exfalso. assert (Hoc : oc = root_key). { rewrite <- Hckey. apply (nw_kroot _ HW); [exact Hcin | rewrite Hckey; exact Ek]. }
+      rewrite Hoc, (nw_root _ HW) in H3. inversion H3; subst cn. cbn in H4. congruence.
+    + exfalso. destruct (fst (nk n)); discriminate.
+Qed.
+
+Lemma node_reattach_spec strict k c s :
+  Inv s -> fst k = KStep ->
+  (strict = true -> find_node k s <> None /\ find_node c s <> None /\ is_detached k s = true /\
+                    c <> k /\ creator_kind_ok (fst k) (fst c) = true) ->
+  wpg strict (node_reattach k c s)
+      (fun s' => Inv s' /\ NodeOnly s s' /\
+                 (forall n cn, find_node k s = Some n -> find_node c s = Some cn ->
+                    nodes s' = reattach_nodes k c (ndet cn) (nodes s))).
+Proof.
+  intros HI Hkind Hst. unfold node_reattach.
+  destruct (find_node k s) as [n|] eqn:Hf.
+  2:{ destruct strict; [|exact I]. cbn. destruct (Hst eq_refl) as [H _]. congruence. }
+  destruct (find_node c s) as [cn|] eqn:Hfc.
+  2:{ destruct strict; [|exact I]. cbn. destruct (Hst eq_refl) as [_ [H _]]. congruence. }
+  destruct (ndet n) eqn:Hdn; cbn [negb].
+  2:{ destruct strict; [|exact I]. cbn. destruct (Hst eq_refl) as [_ [_ [H _]]].
+      rewrite is_detached_findn in H. unfold find_node in Hf. fold (findn k (nodes s)) in Hf.
+      rewrite Hf in H. congruence. }
+  destruct (key_eqb c k) eqn:Eck.
+  { destruct strict; [|exact I]. cbn. destruct (Hst eq_refl) as [_ [_ [_ [H _]]]]. apply key_eqb_eq in Eck. congruence. }
+  destruct (creator_kind_ok (fst k) (fst c)) eqn:Ekind; cbn [negb].
+  2:{ destruct strict; [|exact I]. cbn. destruct (Hst eq_refl) as [_ [_ [_ [_ H]]]]. congruence. }
+  apply key_eqb_neq in Eck.
+  set (det := ndet cn).
+  set (s1 := upd_node k (fun n => mkNode (nk n) (Some c) det) s).
+  assert (Hfin : forall s2, nodes s2 = nodes s1 -> files s2 = files s -> steps s2 = steps s ->
+             deps s2 = deps s -> envs s2 = envs s -> defer_cap s2 = defer_cap s ->
+             incl (shash s2) (shash s) -> NoDup (shash s2) ->
+             Inv (set_detached_rec k det s2) /\ NodeOnly s (set_detached_rec k det s2) /\
+             (forall n0 cn0, Some n = Some n0 -> Some cn = Some cn0 ->
+                nodes (set_detached_rec k det s2) = reattach_nodes k c (ndet cn0) (nodes s))).
+  { intros s2 E1 E2 E3 E4 E5 E6 E7 E8.
+    assert (Hnodes : nodes (set_detached_rec k det s2) = reattach_nodes k c det (nodes s)).
+    { rewrite nodes_set_detached_rec, E1. reflexivity. }
+    assert (HK : KL (nodes (set_detached_rec k det s2)) = KL (nodes s)).
+    { rewrite Hnodes. apply KL_reattach_nodes. }
+    unfold find_node in Hf, Hfc. fold (findn k (nodes s)) in Hf. fold (findn c (nodes s)) in Hfc.
+    split; [|split].
+    - apply (Inv_nodes_change s); try assumption.
+      + rewrite Hnodes. eapply NW_reattach; try eassumption. apply (inv_nw _ HI).
+      + apply (UDl_mono (nodes s)); [|apply (inv_ud _ HI)].
+        intros l n' Hn'. rewrite Hnodes in Hn'. destruct (reattach_nodes_findn _ _ _ _ _ _ Hn') as [m [Hm Hcm]].
+        exists m. split; [exact Hm|]. right. apply Hcm. intros He. rewrite <- He in Hkind. discriminate.
+    - repeat split; assumption.
+    - intros n0 cn0 H1 H2. inversion H2; subst cn0. exact Hnodes. }
+  destruct (ncre n) as [oc|] eqn:Hoc.
+  2:{ cbn. apply Hfin; try reflexivity; [apply incl_refl | apply (rw_hnodup _ _ _ _ _ (inv_rw _ HI))]. }
+  destruct (old_creator_facts s k n oc HI Hf Hdn Hoc) as [Hocd Hock].
+  rewrite Hocd. cbn [negb]. unfold after_lost_product.
+  destruct Hock as [Hock|Hock]; rewrite Hock; cbn.
+  - apply Hfin; try reflexivity.
+    + intros x Hx. apply filter_In in Hx. tauto.
+    + apply NoDup_filter. apply (rw_hnodup _ _ _ _ _ (inv_rw _ HI)).
+  - apply Hfin; try reflexivity; [apply incl_refl | apply (rw_hnodup _ _ _ _ _ (inv_rw _ HI))].
+Qed.
+
+(* ------------------------------------------------------------------------------------------ *)
+(* dependency edges                                                                            *)
+(* ------------------------------------------------------------------------------------------ *)
+Lemma has_dep_In a b s : has_dep a b s = true <-> In (a, b) (EL (deps s)).
+Proof.
+  unfold has_dep, EL. rewrite existsb_exists, in_map_iff. split.
+  - intros [d [Hd H]]. apply andb_true_iff in H. destruct H as [H1 H2].
+    apply key_eqb_eq in H1. apply key_eqb_eq in H2. exists d. unfold edge_of. split; [congruence | exact Hd].
+  - intros [d [H Hd]]. inversion H; subst. exists d. split; [exact Hd|]. rewrite !key_eqb_refl. reflexivity.
+Qed.
+
+Lemma EL_app ds1 ds2 : EL (ds1 ++ ds2) = EL ds1 ++ EL ds2.
+Proof. apply map_app. Qed.
+
+Lemma add_dep_spec strict a b dyn s :
+  Inv s -> In a (KL (nodes s)) -> In b (KL (nodes s)) -> ~ path (EL (deps s)) b a ->
+  (strict = true -> dep_kinds_ok a b = true) ->
+  wpg strict (add_dep a b dyn s)
+      (fun s' => Inv s' /\ s' = set_deps s (deps s ++ [mkD a b dyn])).
+Proof.
+  intros HI Ha Hb Hp Hst. unfold add_dep.
+  destruct (has_dep a b s) eqn:Ehd; [exact I|].
+  destruct (dep_kinds_ok a b) eqn:Ek; cbn [negb].
+  2:{ destruct strict; [|exact I]. cbn. specialize (Hst eq_refl). discriminate. }
+  cbn [wpg]. split; [|reflexivity].
+  destruct HI as [I1 I2 I3 I4 I5 I6 I7]. constructor; try assumption; cbn [deps set_deps nodes].
+  - destruct I3 as [D1 D2 D3 D4]. constructor.
+    + intros d Hd. apply in_app_or in Hd. destruct Hd as [Hd|[<-|[]]]; [apply D1; exact Hd | exact Ek].
+    + intros d Hd. apply in_app_or in Hd. destruct Hd as [Hd|[<-|[]]]; [apply D2; exact Hd | exact Ha].
+    + intros d Hd. apply in_app_or in Hd. destruct Hd as [Hd|[<-|[]]]; [apply D3; exact Hd | exact Hb].
+    + rewrite EL_app. cbn. apply NoDup_app_single; [exact D4|].
+      intros Hin. assert (has_dep a b s = true) by (apply has_dep_In; exact Hin). congruence.
+  - rewrite EL_app. cbn. apply (acyclic_incl _ ((a, b) :: EL (deps s))).
+    + intros e He. apply in_app_or in He. destruct He as [He|[<-|[]]]; [right; exact He | left; reflexivity].
+    + apply acyclic_add_edge; assumption.
+Qed.
+
+Lemma Inv_filter_deps s p : Inv s -> Inv (set_deps s (filter p (deps s))).
+Proof.
+  intros [I1 I2 I3 I4 I5 I6 I7]. constructor; try assumption; cbn [deps set_deps nodes].
+  - destruct I3 as [D1 D2 D3 D4]. constructor.
+    + intros d Hd. apply filter_In in Hd. apply D1. tauto.
+    + intros d Hd. apply filter_In in Hd. apply D2. tauto.
+    + intros d Hd. apply filter_In in Hd. apply D3. tauto.
+    + unfold EL. apply NoDup_map_filter. exact D4.
+  - apply (acyclic_incl _ (EL (deps s))); [|exact I4].
+    unfold EL. intros e He. apply in_map_iff in He. destruct He as [d [Hd1 Hd2]].
+    apply filter_In in Hd2. apply in_map_iff. exists d. tauto.
+Qed.
+
+Lemma del_deps_where_inv p s : Inv s -> Inv (del_deps_where p s).
+Proof. intros HI. unfold del_deps_where. apply Inv_filter_deps. exact HI. Qed.
+
+Lemma path_filter_deps p ds a b : path (EL (filter p ds)) a b -> path (EL ds) a b.
+Proof.
+  apply path_incl. unfold EL. intros e He. apply in_map_iff in He. destruct He as [d [Hd1 Hd2]].
+  apply filter_In in Hd2. apply in_map_iff. exists d. tauto.
+Qed.
+
+(* ------------------------------------------------------------------------------------------ *)
+(* delete_node                                                                                 *)
+(* ------------------------------------------------------------------------------------------ *)
+Lemma In_KL_removen x k ns : In x (KL (removen k ns)) <-> In x (KL ns) /\ x <> k.
+Proof.
+  unfold KL, removen. rewrite !in_map_iff. split.
+  - intros [n [Hn1 Hn2]]. apply filter_In in Hn2. destruct Hn2 as [Hn2 Hn3].
+    apply negb_true_iff in Hn3. apply key_eqb_neq in Hn3. split; [exists n; auto | congruence].
+  - intros [[n [Hn1 Hn2]] Hx]. exists n. split; [exact Hn1|]. apply filter_In. split; [exact Hn2|].
+    apply negb_true_iff. apply key_eqb_neq. congruence.
+Qed.
+Lemma In_FL_filter x l fs :
+  In x (FL (filter (fun r => negb (str_eqb (fl r) l)) fs)) <-> In x (FL fs) /\ x <> l.
+Proof.
+  unfold FL. rewrite !in_map_iff. split.
+  - intros [n [Hn1 Hn2]]. apply filter_In in Hn2. destruct Hn2 as [Hn2 Hn3].
+    apply negb_true_iff in Hn3. apply str_eqb_neq in Hn3. split; [exists n; auto | congruence].
+  - intros [[n [Hn1 Hn2]] Hx]. exists n. split; [exact Hn1|]. apply filter_In. split; [exact Hn2|].
+    apply negb_true_iff. apply str_eqb_neq. congruence.
+Qed.
+Lemma In_SL_filter x l ss :
+  In x (SL (filter (fun r => negb (str_eqb (sl r) l)) ss)) <-> In x (SL ss) /\ x <> l.
+Proof.
+  unfold SL. rewrite !in_map_iff. split.
+  - intros [n [Hn1 Hn2]]. apply filter_In in Hn2. destruct Hn2 as [Hn2 Hn3].
+    apply negb_true_iff in Hn3. apply str_eqb_neq in Hn3. split; [exists n; auto | congruence].
+  - intros [[n [Hn1 Hn2]] Hx]. exists n. split; [exact Hn1|]. apply filter_In. split; [exact Hn2|].
+    apply negb_true_iff. apply str_eqb_neq. congruence.
+Qed.
+
+Lemma products_nil k s : products k s = [] ->
+  forall n, In n (nodes s) -> ncre n = Some k -> nk n = k.
+Proof.
+  unfold products. intros H n Hn Hc.
+  destruct (key_eq_dec (nk n) k) as [He|He]; [exact He|]. exfalso.
+  assert (Hin : In (nk n) (map nk (filter (fun n0 => okey_eqb (ncre n0) (Some k) && negb (key_eqb (nk n0) k)) (nodes s)))).
+  { apply in_map. apply filter_In. split; [exact Hn|]. rewrite Hc. cbn. rewrite key_eqb_refl. cbn.
+    apply negb_true_iff. apply key_eqb_neq. exact He. }
+  rewrite H in Hin. contradiction.
+Qed.
+
+Lemma delete_node_inv k kn s :
+  Inv s -> find_node k s = Some kn -> ndet kn = true -> products k s = [] ->
+  (forall d, In d (deps s) -> dsrc d <> k) ->
+  Inv (delete_node k s).
+Proof.
+  intros HI Hf Hdet Hprod Hsrc. pose proof HI as [I1 I2 I3 I4 I5 I6 I7].
+  unfold find_node in Hf. fold (findn k (nodes s)) in Hf.
+  assert (HNW : NWl (removen k (nodes s))).
+  { eapply NW_remove; try eassumption. apply products_nil. exact Hprod. }
+  assert (Hkr : k <> root_key).
+  { intros ->. rewrite (nw_root _ I1) in Hf. inversion Hf; subst kn. discriminate. }
+  set (ds' := filter (fun d => negb (key_eqb (dsnk d) k)) (deps s)).
+  assert (HDW : DWl (removen k (nodes s)) ds').
+  { destruct I3 as [D1 D2 D3 D4]. constructor.
+    - intros d Hd. apply filter_In in Hd. apply D1. tauto.
+    - intros d Hd. apply filter_In in Hd. destruct Hd as [Hd _]. apply In_KL_removen. split; [apply D2; exact Hd | apply Hsrc; exact Hd].
+    - intros d Hd. apply filter_In in Hd. destruct Hd as [Hd Hk]. apply In_KL_removen. split; [apply D3; exact Hd|].
+      apply negb_true_iff in Hk. apply key_eqb_neq in Hk. exact Hk.
+    - unfold EL. apply NoDup_map_filter. exact D4. }
+  assert (HAC : acyclic (EL ds')).
+  { apply (acyclic_incl _ (EL (deps s))); [|exact I4]. unfold EL, ds'. intros e He.
+    apply in_map_iff in He. destruct He as [d [Hd1 Hd2]]. apply filter_In in Hd2. apply in_map_iff. exists d. tauto. }
+  assert (HUD : forall fs', incl fs' (files s) -> UDl (removen k (nodes s)) fs').
+  { intros fs' Hi r Hr Hst n Hn. unfold removen in Hn. rewrite findn_remove in Hn.
+    destruct (key_eqb (KFile, fl r) k); [discriminate|]. eapply I5; [apply Hi; exact Hr | exact Hst | exact Hn]. }
+  destruct I2 as [R1 R2 R3 R4 R5 R6 R7].
+  assert (Hnotroot : fst k <> KRoot).
+  { intros Hk. apply Hkr. pose proof (findn_In _ _ _ Hf) as [Hin Hkey].
+    rewrite <- Hkey. apply (nw_kroot _ I1); [exact Hin | rewrite Hkey; exact Hk]. }
+  unfold delete_node. destruct k as [kk kl]. destruct kk; cbn [fst snd] in *; [congruence | | |];
+    constructor; cbn [nodes files steps deps shash envs set_nodes set_files set_steps set_shash set_envs
+                      set_deps del_all_sources del_deps_where];
+    try match goal with |- context [filter (fun n => negb (key_eqb (nk n) ?k)) (nodes s)] =>
+      change (filter (fun n => negb (key_eqb (nk n) k)) (nodes s)) with (removen k (nodes s)) end;
+    try exact HNW; try exact HDW; try exact HAC; try exact I6; try exact I7;
+    try (apply HUD; apply incl_refl); try (apply HUD; intros x Hx; apply filter_In in Hx; tauto);
+    try (intros r Hr; apply filter_In in Hr; destruct Hr as [Hr _]; first [apply I6; exact Hr | apply I7; exact Hr]).
+  - (* file *)
+    constructor; try assumption.
+    + unfold FL. apply NoDup_map_filter. exact R1.
+    + intros l. rewrite In_FL_filter, In_KL_removen, R3. split; intros [H1 H2]; (split; [exact H1|]); congruence.
+    + intros l. rewrite In_KL_removen, R4. split; [intros H; split; [exact H | discriminate] | tauto].
+  - (* step *)
+    constructor.
+    + exact R1.
+    + unfold SL. apply NoDup_map_filter. exact R2.
+    + intros l. rewrite In_KL_removen, R3. split; [intros H; split; [exact H | discriminate] | tauto].
+    + intros l. rewrite In_SL_filter, In_KL_removen, R4. split; intros [H1 H2]; (split; [exact H1|]); congruence.
+    + apply NoDup_filter. exact R5.
+    + intros x Hx. apply filter_In in Hx. destruct Hx as [Hx1 Hx2]. apply In_SL_filter.
+      split; [apply R6; exact Hx1|]. apply negb_true_iff in Hx2. apply str_eqb_neq in Hx2. exact Hx2.
+    + intros x Hx. apply in_map_iff in Hx. destruct Hx as [e [He1 He2]]. apply filter_In in He2.
+      destruct He2 as [He2 He3]. apply In_SL_filter. subst x. split; [apply R7; apply in_map; exact He2|].
+      apply negb_true_iff in He3. apply str_eqb_neq in He3. exact He3.
+  - (* tree *)
+    constructor; try assumption.
+    + intros l. rewrite In_KL_removen, R3. split; [intros H; split; [exact H | discriminate] | tauto].
+    + intros l. rewrite In_KL_removen, R4. split; [intros H; split; [exact H | discriminate] | tauto].
+Qed.
